@@ -62,7 +62,7 @@ def tset(xs):
 
 def gen_cfg(ctx, name, **kw):
     d = dict(mode=EDGE, contents="GenContentsSmall", rids=tset([1, 2]), maxargs=tset([0, 1, 2]),
-             policies=tset(["oddid", "oldserial", "none"]), idargs=tset([1, 2, 3, 9]), serialargs=tset([1, 2, 7]),
+             policies=tset(["oddid", "oldserial", "none"]), idargs=tset([1, 2, 3, 9]), serialargs=tset([0, 1, 7]),
              depth=7, ops=tset(ALL_OPS), initkinds=tset(["fresh"]), initcontents="GenInitOne", maxcommits=3,
              closehows=tset(["rollback"]), endhows=tset(["commit", "rollback"]), idoffsets="GenNoOffsets", forms=tset(["rdata"]))
     d.update(kw)
@@ -154,7 +154,7 @@ def run(ctx):
             ctx, "e2.cfg", initkinds=tset(["loaded"]), initcontents="GenInitTwo" if not quick else "GenInitOne",
             contents="GenContentsSmall" if quick else "GenContentsMid", rids=tset([1, 2, 3]),
             maxargs=tset([1, 2] if quick else [1, 2, 3]), policies=tset(["oddid", "oldserial"]),
-            idargs=tset([2, 3, 4] if quick else [2, 3, 4, 5]), serialargs=tset([1, 2] if quick else [1, 2, 3]),
+            idargs=tset([2, 3, 4] if quick else [2, 3, 4, 5]), serialargs=tset([0, 1, 2] if quick else [0, 1, 2, 3]),
             ops=tset([o for o in ALL_OPS if o not in ("openboth", "mutate", "zmutate")] + SCRIBBLE),
             forms=tset(["rdataset"] if quick else ["rdataset", "rrset"]),
             depth=5 if quick else 7, maxcommits=4 if quick else 5,
@@ -176,7 +176,7 @@ def run(ctx):
         n = 0 if fast else 600 if quick else 12000
         d = 20 if quick else 40
         simkw = dict(mode=SIM, initcontents="GenInitTwo", contents="GenContents", rids=tset([1, 2, 3]), maxargs=tset([0, 1, 2, 3]),
-                     idargs=tset([1]), idoffsets="GenIdOffsets", serialargs=tset([1, 2, 3]), depth=d, maxcommits=12,
+                     idargs=tset([1]), idoffsets="GenIdOffsets", serialargs=tset([0, 1, 2, 3]), depth=d, maxcommits=12,
                      closehows=tset(["commit", "rollback", "exit"]), endhows=tset(["commit", "exit", "rollback", "raise"]))
         if n:
             scripts += ctx.generate("Gen_VersionedZone", gen_cfg(ctx, "s1.cfg", initkinds=tset(["loaded"]), **simkw),
@@ -242,6 +242,15 @@ def run(ctx):
     ctx.extra["history_events"] = sum(len(tr["ev"]) for tr in traces)
     ctx.extra["mutator_calls_witnessed"] = ncalls
     ctx.extra["objects_examined"] = sum(1 for tr in ptraces for e in tr["ev"] if e.get("op") == "obj")
+    ctx.extra["noop_variant_calls"] = sum(1 for tr in ptraces for e in tr["ev"] if e.get("op") == "noop")
+    silent = {}
+    for tr in ptraces:
+        for e in tr["ev"]:
+            if e.get("op") == "noop" and e.get("res") != "err":
+                k = "%s %s.%s%s" % (e["kind"], e["cls"], e["m"], e["args"])
+                silent[k] = silent.get(k, 0) + 1
+    # not hidden: every mutator call with no-op arguments that returned instead of raising
+    ctx.extra["noop_calls_that_returned_silently"] = silent
     ctx.evaluations = len(traces) + ncalls
     # ---- judge
     rejects = ctx.validate("Trace_VersionedZone", "Trace_VersionedZone.cfg", traces) if traces else []
